@@ -405,6 +405,7 @@ def run(rec, shard, nshards, t):
     # reference-table spot checks quoted in `tally reference`
     if shard == 0:
         exact_aggregates(rec, ep)
+        exact_comparisons(rec, ep)
         doc = [('split("-", 0)', {'description': 'ACH-OUT-123'}, 'ACH'), ('substring(0, 4)', {'description': 'AMZN*MARKET'}, 'AMZN'),
                ('trim()', {'description': '  AMAZON  '}, 'AMAZON'), ('extract("REF:(\\\\d+)")', {'description': 'REF:12345'}, '12345'),
                ('regex_replace(field.description, "^APLPAY\\\\s+", "")', {'description': 'APLPAY STARBUCKS'}, 'STARBUCKS'),
@@ -425,6 +426,34 @@ def run(rec, shard, nshards, t):
 EXACT_ROWS = {'cents': [{'amt': 0.1}, {'amt': 0.2}, {'amt': 0.3}], 'dimes': [{'amt': 0.1} for _ in range(10)],
               'mix': [{'amt': 19.99}, {'amt': 5.01}, {'amt': 0.10}, {'amt': 0.20}], 'big': [{'amt': 1e16}, {'amt': 1.0}, {'amt': -1e16}],
               'ints': [{'amt': 3}, {'amt': 4}], 'one': [{'amt': 0.1}], 'none': []}
+
+
+def exact_comparisons(rec, ep):
+    """Comparisons of numbers are Python's, bit for bit (0.1 + 0.2 is not 0.3; == and != are each other's negation; a <= b and a >= b is a == b), and a name
+    bound to None - by :=, as a loop variable, as a variable - is bound: it reads as None."""
+    rows = {'cents': [{'amt': 0.1}, {'amt': 0.2}], 'vals': [{'v': None}, {'v': 3}], 'none': []}
+    probes = [('sum(r.amt for r in cents) == 0.3', {}, 0.1 + 0.2 == 0.3), ('sum(r.amt for r in cents) != 0.3', {}, 0.1 + 0.2 != 0.3),
+              ('amount * 3 == 0.9', {'amount': 0.3}, 0.3 * 3 == 0.9), ('amount / 3 == 0.1', {'amount': 0.3}, 0.3 / 3 == 0.1),
+              ('amount == 100', {'amount': 100.0000000001}, False), ('amount != 100', {'amount': 100.0000000001}, True),
+              ('(amount == 100) == (not (amount != 100))', {'amount': 100.0000000001}, True), ('(amount >= 100 and amount <= 100) == (amount == 100)', {'amount': 100.0000000001}, True),
+              ('amount == 0.30000000000000004', {'amount': 0.1 + 0.2}, True), ('1e16 + 1.0 == 1e16', {}, 1e16 + 1.0 == 1e16),
+              ('(m := next((r for r in none), None)) == None', {}, True), ('not (m := next((r for r in none), None))', {}, True),
+              ('(m := next((r for r in none), None)) == None and m == None', {}, True), ('[x.v for x in vals][0] == None', {}, True),
+              ('len([x for x in [r.v for r in vals] if x == None]) == 1', {}, True), ('any(x == None for x in [r.v for r in vals])', {}, True),
+              ('nothing == None', {'__vars__': {'nothing': None}}, True), ('not nothing', {'__vars__': {'nothing': None}}, True),
+              ('(source := None) == None', {}, True)]
+    for e, over, want in probes:
+        txn = {'description': 'x', 'amount': 0.6, 'field': None, 'source': 's'}
+        variables = over.pop('__vars__', {}) if '__vars__' in over else {}
+        txn.update(over)
+        rec.count('exact_comparison_checks')
+        try:
+            got = ep.evaluate_transaction(e, dict(txn), dict(variables), {k: [dict(r) for r in v] for k, v in rows.items()})
+        except Exception as ex:
+            rec.violation('exact-comparison:raises', f'{e}: {type(ex).__name__}: {ex} (Python: {want!r})', {'kind': 'exact'})
+            continue
+        if got is not want:
+            rec.violation('exact-comparison:differs-from-python', f'{e} with amount={txn["amount"]!r}: tally {got!r}, Python {want!r}', {'kind': 'exact'})
 
 
 def exact_aggregates(rec, ep):
@@ -459,6 +488,7 @@ def replay(rec, case):
     from tally import expr_parser as ep
     if case['kind'] == 'exact':
         exact_aggregates(rec, ep)
+        exact_comparisons(rec, ep)
         return
     if case['kind'] == 'varseq':
         rnd = core.rng_for('C04', 'replay')
